@@ -59,7 +59,20 @@ type pkgRule struct {
 
 var pkgRules []pkgRule
 
-func reg(name string, h Intrinsic) { intrinsics[name] = h }
+func reg(name string, h Intrinsic) {
+	// atomics and sync.Map are synchronisation primitives: their internal accesses are not data races
+	if strings.HasPrefix(name, "sync/atomic.") || strings.HasPrefix(name, "(*sync/atomic.") || strings.HasPrefix(name, "(*sync.Map)") || strings.HasPrefix(name, "(*sync.Once)") || strings.HasPrefix(name, "(*sync.Pool)") {
+		inner := h
+		h = func(ex *Exec, fn *ssa.Function, a []Value) Value {
+			if ex.race != nil && ex.race.enabled {
+				ex.race.enabled = false
+				defer func() { ex.race.enabled = true }()
+			}
+			return inner(ex, fn, a)
+		}
+	}
+	intrinsics[name] = h
+}
 
 var noIntrinsic Intrinsic = nil
 
